@@ -78,6 +78,23 @@ def bin_completion(binner: Binner, binsize: float, items: List[Any])->BinsArray:
     # Remove zeros from items as they are irrelevant.
     items = [item for item in items if binner.valueof(item)!=0]
 
+    # The search does arithmetic on the items themselves, so it runs on the item values.
+    # Afterwards, the items (which may be names) are put into the caller's bins according to their values.
+    _, value_lists = _bin_completion_of_values(BinnerKeepingContents(), binsize, [binner.valueof(item) for item in items])
+    items_by_value = {}
+    for item in items:
+        items_by_value.setdefault(binner.valueof(item), []).append(item)
+    bins = binner.new_bins(len(value_lists))
+    for ibin, values_in_bin in enumerate(value_lists):
+        for value in values_in_bin:
+            binner.add_item_to_bin(bins, items_by_value[value].pop(0), ibin)
+    return bins
+
+
+def _bin_completion_of_values(binner: Binner, binsize: float, items: List[Any])->BinsArray:
+    """
+    The bin-completion search itself. Here, each item is a number and equals its value.
+    """
     # Find the BFD solution and check if it's optimal using the lower bound calculation.
     bfd_solution = best_fit.decreasing(binner, binsize, items)   # built with the caller's binner, which is also the one that measures it below
     lb = lower_bound(binsize, map(binner.valueof, items))
